@@ -122,6 +122,26 @@ class FlatSet : private Compare {
 
   explicit FlatSet(const Compare &comp, const Alloc &alloc = Alloc()) : Compare(comp), _sortedVector(alloc) {}
 
+  FlatSet(const FlatSet &) = default;
+  FlatSet(FlatSet &&) = default;
+  FlatSet &operator=(FlatSet &&) = default;
+  ~FlatSet() = default;
+
+  /// The copy assignment of the underlying vector only provides the basic exception guarantee: if a copy throws,
+  /// its elements would not be a sorted sequence without duplicates anymore. Make sure we stay a valid (empty) set.
+  FlatSet &operator=(const FlatSet &o) {
+    if (AMC_LIKELY(this != &o)) {
+      compRef() = o.compRef();
+      try {
+        _sortedVector = o._sortedVector;
+      } catch (...) {
+        _sortedVector.clear();
+        throw;
+      }
+    }
+    return *this;
+  }
+
   explicit FlatSet(const Alloc &alloc) : _sortedVector(alloc) {}
 
   template <class InputIt>
